@@ -333,14 +333,20 @@ def history(seed, steps):
         if p.name in names_seen:
             return 'unique name %s reused' % p.name
         names_seen.add(p.name)
-    owners = {}          # well-known name -> peer (model kept simple: only unowned names are requested)
+    queues = {}          # well-known name -> claimants in arrival order, head = owner (requests without flags: waiters queue)
+
+    class Owners:
+        def __contains__(self, n): return n in queues
+        def __iter__(self): return iter(queues)
+        def get(self, n): return queues[n][0] if n in queues else None
+    owners = Owners()
     rules = {}           # peer -> set of interfaces it subscribed to
     counter = [0]
     for step in range(steps):
         live = [p for p in peers if p.alive]
         if not live:
             break
-        op = rnd.choice(['uni', 'uni', 'name', 'bcast', 'match', 'connect', 'disconnect', 'tobus'])
+        op = rnd.choice(['uni', 'uni', 'uni', 'name', 'name', 'release', 'bcast', 'match', 'connect', 'disconnect', 'tobus'])
         a = rnd.choice(live)
         try:
             if op == 'connect' and len(peers) < 5:
@@ -352,21 +358,42 @@ def history(seed, steps):
             elif op == 'disconnect' and len(live) > 2:
                 a.alive = False
                 a.proto.connectionLost(None)
-                for n in [n for n, o in owners.items() if o is a]:
-                    del owners[n]
+                for n in list(queues):
+                    if a in queues[n]:
+                        queues[n].remove(a)
+                        if not queues[n]:
+                            del queues[n]
                 rules.pop(a, None)
             elif op == 'name':
                 n = 'org.e.N%d' % rnd.randrange(3)
-                if n not in owners:
-                    if a.call_bus('RequestName', 'su', [n, 4]).body[0] != 1:
-                        return 'RequestName(%s) on an unowned name refused' % n
-                    owners[n] = a
+                q = queues.get(n)
+                want = 1 if not q else 4 if q[0] is a else 2
+                got = a.call_bus('RequestName', 'su', [n, 0]).body[0]
+                if got != want:
+                    return 'step %d: RequestName(%s) by %s answered %r, expected %r (claimants %r)' % (step, n, a.name, got, want, [x.name for x in q or []])
+                if not q:
+                    queues[n] = [a]
+                elif a not in q:
+                    q.append(a)
+            elif op == 'release':
+                n = 'org.e.N%d' % rnd.randrange(3)
+                q = queues.get(n)
+                want = 2 if not q else 1 if q[0] is a else 3
+                got = a.call_bus('ReleaseName', 's', [n]).body[0]
+                if got != want:
+                    return 'step %d: ReleaseName(%s) by %s answered %r, expected %r (claimants %r)' % (step, n, a.name, got, want, [x.name for x in q or []])
+                if q and a in q:
+                    q.remove(a)
+                    if not q:
+                        del queues[n]
             elif op == 'match':
                 iface = 'org.e.I%d' % rnd.randrange(2)
                 if iface not in rules.get(a, ()):          # one rule per (connection, interface): copies per rule are C12's subject
                     a.call_bus('AddMatch', 's', ["type='signal',interface='%s'" % iface])
                     rules.setdefault(a, set()).add(iface)
             elif op == 'tobus':
+                for q in live:
+                    q.drain()
                 r = a.call_bus('GetNameOwner', 's', [a.name])
                 if r.body[0] != a.name:
                     return 'GetNameOwner(%s) answered %r' % (a.name, r.body)
@@ -590,9 +617,38 @@ def late_loss_of_refused_connection_case():
     return None
 
 
+def withdrawn_claim_case():
+    """A owns a name, B and C wait for it; B withdraws (by ReleaseName or by disconnecting); when A gives the name up, a
+    message addressed to the name reaches C - the next live claimant - and nobody else"""
+    from txdbus import message
+    for how in ('release', 'disconnect'):
+        net = Net()
+        a, b, c, d = [net.connect() for _ in range(4)]
+        for p, want in ((a, 1), (b, 2), (c, 2)):
+            got = p.call_bus('RequestName', 'su', ['org.e.W', 0]).body[0]
+            if got != want:
+                return 'RequestName by %s answered %r, expected %r' % (p.name, got, want)
+        if how == 'release':
+            b.call_bus('ReleaseName', 's', ['org.e.W'])
+        else:
+            b.alive = False
+            b.proto.connectionLost(None)
+        a.call_bus('ReleaseName', 's', ['org.e.W'])
+        for p in (a, b, c, d):
+            p.drain()
+        m = message.MethodCallMessage('/o', 'M', interface='org.e.I0', destination='org.e.W', signature='s', body=['for-the-owner'])
+        d.send(m)
+        for p in (a, b, c, d):
+            got = [x for x in p.drain() if getattr(x, 'body', None) == ['for-the-owner']]
+            want = 1 if p is c else 0
+            if len(got) != want:
+                return 'waiter withdrew by %s, owner released: the call for the name reached %s %d times, expected %d' % (how, p.name, len(got), want)
+    return None
+
+
 def bounded(tier, seed):
     n = 0
-    for case in (late_loss_of_refused_connection_case, order_case, prehello_case, dead_subscriber_case, takeover_case, namespace_subscription_case, forged_wellknown_sender_case, big_endian_client_case):
+    for case in (late_loss_of_refused_connection_case, order_case, prehello_case, dead_subscriber_case, takeover_case, namespace_subscription_case, forged_wellknown_sender_case, big_endian_client_case, withdrawn_claim_case):
         n += 1
         try:
             f = case()
@@ -600,10 +656,10 @@ def bounded(tier, seed):
             f = '%s raised %s: %s' % (case.__name__, type(e).__name__, e)
         if f:
             return n, f, {'case': case.__name__}
-    for k in range(1500 if tier == 'thorough' else 25):
+    for k in range(1500 if tier == 'thorough' else 60):
         n += 1
         try:
-            f = history(seed * 1000 + k, 40 if tier == 'thorough' else 25)
+            f = history(seed * 1000 + k, 60 if tier == 'thorough' else 40)
         except Exception as e:
             f = 'history raised %s: %s' % (type(e).__name__, e)
         if f:
@@ -618,8 +674,8 @@ def replay(function, clause, model):
 
 def run_bounded(tier, seed):
     n, f, inp = bounded(tier, seed)
-    return {'tool': 'random histories (connect, disconnect, RequestName, AddMatch, unicast of all four types with forged sender, broadcast, calls to the bus) among up to 5 clients through the real Bus / BusProtocol, wire bytes parsed back; ordering and pre-Hello cases',
-            'bound': '%d histories of %d steps' % ((1500, 40) if tier == 'thorough' else (25, 25)),
+    return {'tool': 'random histories (connect, disconnect, RequestName with queueing, ReleaseName by owners and waiters, AddMatch, unicast of all four types with forged sender, broadcast, calls to the bus) among up to 5 clients through the real Bus / BusProtocol, wire bytes parsed back; ordering and pre-Hello cases',
+            'bound': '%d histories of %d steps' % ((1500, 60) if tier == 'thorough' else (60, 40)),
             'evaluations': n, 'failures': [] if not f else [{'function': 'txdbus.bus', 'clause': 'delivery', 'input': inp, 'detail': f}]}
 
 
